@@ -73,6 +73,9 @@ func buildPublished(cd gen.Codecs, all []gen.Item) *published {
 			if cd.Audio == "aac" {
 				skip = 2 // + AACPacketType
 			}
+			if len(pl) <= skip {
+				continue // an AAC raw message without data is not a frame
+			}
 			p.audio = append(p.audio, pubAudio{item: i, ts: it.Ts, data: pl[skip:]})
 		}
 	}
